@@ -506,3 +506,12 @@ Fixpoint xdb_run (x : xdb) (ops : list xop) : xdb * list xout :=
   end.
 
 Definition run_xops (main : cdb) (ops : list xop) : list xout := snd (xdb_run (xdb_new main) ops).
+
+(** the guard on histories: nothing is buffered whenever Rollback is called *)
+Fixpoint xdb_guard (x : xdb) (ops : list xop) : bool :=
+  match ops with
+  | [] => true
+  | o :: tl =>
+      (match o, x_kvs x with XRollback, _ :: _ => false | _, _ => true end) &&
+      xdb_guard (fst (xdb_step x o)) tl
+  end.
